@@ -1,2 +1,325 @@
-(* C11 placeholder: statements follow *)
-From PM Require Import Lib.Bytes Tls.Intercept Tls.InterceptFacts.
+(* C11 — TLS interception issues a valid per-host certificate and never trusts a bad upstream.
+   Statements only; proofs are in Tls/InterceptFacts.v (general theorems) and Tls/InterceptSweep.v
+   (the finite outcome table).
+
+   PARTIAL: X.509 path validation and the TLS handshakes are openssl's.  They enter as oracles
+   (universally quantified functions): [handshake] is handed the exact ssl-context settings the code
+   passes and answers with the peer certificate's subject or an exception; [openssl_run] answers each
+   `openssl` command line; [connect], [client_flush], [client_handshake] answer the socket operations;
+   [pipeline_step]/[response_step] stand for the HTTP parsers at work inside an intercepted session
+   (C02 / C03).  What is proved is the proxy's own logic, for ALL such oracles, hosts, flag settings,
+   plugin answers, cache contents and event sequences.  The only assumption about openssl is
+   [openssl_spec] (a bad chain fails a CERT_REQUIRED handshake, a wrong name fails it when check_hostname
+   is on), and it is a premise only where a statement speaks about certificates rather than handshakes.
+
+   The full property reads: "a client that CONNECTs is presented a certificate naming that host and
+   chaining to the configured CA; what it sends inside TLS reaches the origin over a separately verified
+   TLS session with the meaning of C02 and the response returns intact; if the origin's certificate fails
+   verification nothing is relayed in either direction unless the operator disabled verification;
+   opted-out connections are tunnelled byte for byte".  Missing for the full statement: that the leaf
+   openssl emits really chains to the CA and is accepted by a client (openssl; observed in the live run),
+   and the semantics of the forwarded requests (C02). *)
+From PM Require Import Lib.Bytes Lib.PyStr Tls.Intercept Tls.InterceptFacts Tls.InterceptCases Tls.InterceptSweep.
+
+(* ---------------------------------------------------------------- never trust a bad upstream *)
+(* If the origin's certificate does not verify against the configured trust store, or does not name the
+   CONNECT host, and --insecure-tls-interception is off, then for every continuation of the connection:
+   nothing is ever queued for or sent to the origin; the client only ever gets the proxy's own
+   "200 Connection established" in plaintext; no certificate is generated or presented (the trace is
+   exactly connect, queue-200, upstream-wrap); the client is no longer read, and the connection is
+   closed as soon as that reply has been flushed. *)
+Theorem C11_no_relay_on_bad_upstream :
+  forall (is_ip_literal : bytes -> bool) (connect : bytes -> N -> option pyexn)
+         (handshake : wrap_call -> hs_result) (openssl_run : openssl_cmd -> run_result)
+         (client_flush : bytes -> flush_result) (client_handshake : bytes -> bytes -> option pyexn)
+         (PS RS : Type) (pipeline_step : PS -> bytes -> option (PS * list bytes))
+         (response_step : RS -> bytes -> option RS)
+         (chain_ok : option bytes -> bool) (name_ok : bytes -> bool)
+         (fl : flags) (host h : bytes) (port : N) (answers : list bool) (fs0 : list bytes)
+         (p0 : PS) (r0 : RS) (evs : list event),
+    openssl_spec handshake chain_ok name_ok ->
+    insecure_tls_interception fl = false ->
+    tls_intercept_enabled_ fl answers = true ->
+    text_ host = Ok h -> host <> [] -> port <> 0 -> connect h port = None ->
+    (chain_ok (ca_file fl) = false \/ name_ok (strip_brackets h) = false) ->
+    let hf := run is_ip_literal connect handshake openssl_run client_flush client_handshake
+                  PS RS pipeline_step response_step fl host port answers fs0 p0 r0 evs in
+    up_buf (ps hf) = [] /\ up_wire (ps hf) = [] /\
+    map snd (cl_wire (ps hf)) ++ cl_buf (ps hf) = [K200] /\ plain_wire (cl_wire (ps hf)) /\
+    cl (ps hf) = ClPlain /\ up (ps hf) = UpDead /\
+    tr (ps hf) = [EConnect h port; EClientQueue K200; EUpstreamWrap (policy_call fl h)] /\
+    mode hf <> Running /\
+    (existsb is_FlushClient evs = true -> mode hf = Closed).
+Proof. exact no_relay_on_bad_upstream. Qed.
+Print Assumptions C11_no_relay_on_bad_upstream.
+
+(* the same for ANY exception out of the upstream handshake (alerts, resets, timeouts ...), whatever the
+   insecure switch says *)
+Theorem C11_no_relay_when_handshake_raises :
+  forall (is_ip_literal : bytes -> bool) (connect : bytes -> N -> option pyexn)
+         (handshake : wrap_call -> hs_result) (openssl_run : openssl_cmd -> run_result)
+         (client_flush : bytes -> flush_result) (client_handshake : bytes -> bytes -> option pyexn)
+         (PS RS : Type) (pipeline_step : PS -> bytes -> option (PS * list bytes))
+         (response_step : RS -> bytes -> option RS)
+         (fl : flags) (host h : bytes) (port : N) (answers : list bool) (fs0 : list bytes)
+         (p0 : PS) (r0 : RS) (evs : list event) (e : pyexn),
+    text_ host = Ok h -> host <> [] -> port <> 0 -> connect h port = None ->
+    tls_intercept_enabled_ fl answers = true ->
+    handshake (policy_call fl h) = HsRaise e -> is_HttpProtocolException e = false ->
+    let hf := run is_ip_literal connect handshake openssl_run client_flush client_handshake
+                  PS RS pipeline_step response_step fl host port answers fs0 p0 r0 evs in
+    up_buf (ps hf) = [] /\ up_wire (ps hf) = [] /\
+    map snd (cl_wire (ps hf)) ++ cl_buf (ps hf) = [K200] /\ plain_wire (cl_wire (ps hf)) /\
+    cl (ps hf) = ClPlain /\ up (ps hf) = UpDead /\
+    tr (ps hf) = [EConnect h port; EClientQueue K200; EUpstreamWrap (policy_call fl h)] /\
+    mode hf <> Running /\
+    (existsb is_FlushClient evs = true -> mode hf = Closed).
+Proof. exact no_relay_when_handshake_raises. Qed.
+Print Assumptions C11_no_relay_when_handshake_raises.
+
+(* Conversely: on NO path is a byte ever sent inside a TLS session of the proxy, to either side, and
+   neither connection is ever TLS-wrapped, unless the upstream handshake succeeded under the policy
+   settings; with verification on and openssl as specified that means the origin's chain verified against
+   the configured trust store and its certificate names the CONNECT host. *)
+Theorem C11_tls_only_after_verified_handshake :
+  forall (is_ip_literal : bytes -> bool) (connect : bytes -> N -> option pyexn)
+         (handshake : wrap_call -> hs_result) (openssl_run : openssl_cmd -> run_result)
+         (client_flush : bytes -> flush_result) (client_handshake : bytes -> bytes -> option pyexn)
+         (PS RS : Type) (pipeline_step : PS -> bytes -> option (PS * list bytes))
+         (response_step : RS -> bytes -> option RS)
+         (fl : flags) (host : bytes) (port : N) (answers : list bool) (fs0 : list bytes)
+         (p0 : PS) (r0 : RS) (evs : list event),
+    let hf := run is_ip_literal connect handshake openssl_run client_flush client_handshake
+                  PS RS pipeline_step response_step fl host port answers fs0 p0 r0 evs in
+    (cl (ps hf) = ClTls \/ up (ps hf) = UpTls \/
+     (exists d, In (true, d) (cl_wire (ps hf))) \/ (exists d, In (true, d) (up_wire (ps hf)))) ->
+    exists h p, text_ host = Ok h /\ handshake (policy_call fl h) = HsOk p.
+Proof. exact tls_only_after_verified_handshake. Qed.
+Print Assumptions C11_tls_only_after_verified_handshake.
+
+Theorem C11_tls_only_for_good_origin :
+  forall (is_ip_literal : bytes -> bool) (connect : bytes -> N -> option pyexn)
+         (handshake : wrap_call -> hs_result) (openssl_run : openssl_cmd -> run_result)
+         (client_flush : bytes -> flush_result) (client_handshake : bytes -> bytes -> option pyexn)
+         (PS RS : Type) (pipeline_step : PS -> bytes -> option (PS * list bytes))
+         (response_step : RS -> bytes -> option RS)
+         (chain_ok : option bytes -> bool) (name_ok : bytes -> bool)
+         (fl : flags) (host : bytes) (port : N) (answers : list bool) (fs0 : list bytes)
+         (p0 : PS) (r0 : RS) (evs : list event),
+    openssl_spec handshake chain_ok name_ok ->
+    insecure_tls_interception fl = false ->
+    let hf := run is_ip_literal connect handshake openssl_run client_flush client_handshake
+                  PS RS pipeline_step response_step fl host port answers fs0 p0 r0 evs in
+    (cl (ps hf) = ClTls \/ up (ps hf) = UpTls \/
+     (exists d, In (true, d) (cl_wire (ps hf))) \/ (exists d, In (true, d) (up_wire (ps hf)))) ->
+    exists h, text_ host = Ok h /\ chain_ok (ca_file fl) = true /\ name_ok (strip_brackets h) = true.
+Proof. exact tls_only_for_good_origin. Qed.
+Print Assumptions C11_tls_only_for_good_origin.
+
+(* ---------------------------------------------------------------- the verification policy *)
+(* Whatever happens, at most one upstream handshake is attempted per CONNECT, and its context is:
+   verify_mode = CERT_NONE iff the insecure switch is on, otherwise CERT_REQUIRED with check_hostname;
+   server_hostname = the CONNECT host (brackets of an IPv6 literal removed); cafile = --ca-file. *)
+Theorem C11_verify_policy :
+  forall (is_ip_literal : bytes -> bool) (connect : bytes -> N -> option pyexn)
+         (handshake : wrap_call -> hs_result) (openssl_run : openssl_cmd -> run_result)
+         (client_flush : bytes -> flush_result) (client_handshake : bytes -> bytes -> option pyexn)
+         (PS RS : Type) (pipeline_step : PS -> bytes -> option (PS * list bytes))
+         (response_step : RS -> bytes -> option RS)
+         (fl : flags) (host : bytes) (port : N) (answers : list bool) (fs0 : list bytes)
+         (p0 : PS) (r0 : RS) (evs : list event),
+    let hf := run is_ip_literal connect handshake openssl_run client_flush client_handshake
+                  PS RS pipeline_step response_step fl host port answers fs0 p0 r0 evs in
+    (forall c, In (EUpstreamWrap c) (tr (ps hf)) -> exists h, text_ host = Ok h /\ c = policy_call fl h) /\
+    (count_up_wraps (tr (ps hf)) <= 1)%nat.
+Proof. exact verify_policy. Qed.
+Print Assumptions C11_verify_policy.
+
+Theorem C11_policy_call_fields : forall fl h,
+  let c := policy_call fl h in
+  (wc_verify_mode c = CERT_NONE <-> insecure_tls_interception fl = true) /\
+  (insecure_tls_interception fl = false -> wc_verify_mode c = CERT_REQUIRED /\ wc_check_hostname c = true) /\
+  wc_server_hostname c = Some (strip_brackets h) /\
+  wc_cafile c = ca_file fl.
+Proof. exact policy_call_fields. Qed.
+Print Assumptions C11_policy_call_fields.
+
+(* when is interception attempted at all: all four CA flags present and no plugin answered False *)
+Theorem C11_intercept_gate : forall fl answers,
+  tls_intercept_enabled_ fl answers = tls_interception_enabled fl && forallb (fun a => a) answers.
+Proof. exact tls_intercept_enabled_spec. Qed.
+Print Assumptions C11_intercept_gate.
+
+(* ---------------------------------------------------------------- opt-out is an opaque tunnel *)
+(* If interception is off or a plugin's do_intercept returns False - at the CONNECT and at every later
+   call - there is no wrap call and no openssl command at all (the trace is connect, queue-200), both
+   sockets stay plain, and chunk for chunk, in order, unmodified: what the client sends is what is
+   queued/sent to the origin, and what the origin sends is what the client gets after the 200 reply. *)
+Theorem C11_optout_is_tunnel :
+  forall (is_ip_literal : bytes -> bool) (connect : bytes -> N -> option pyexn)
+         (handshake : wrap_call -> hs_result) (openssl_run : openssl_cmd -> run_result)
+         (client_flush : bytes -> flush_result) (client_handshake : bytes -> bytes -> option pyexn)
+         (PS RS : Type) (pipeline_step : PS -> bytes -> option (PS * list bytes))
+         (response_step : RS -> bytes -> option RS)
+         (fl : flags) (host h : bytes) (port : N) (answers : list bool) (fs0 : list bytes)
+         (p0 : PS) (r0 : RS) (evs : list event),
+    text_ host = Ok h -> host <> [] -> port <> 0 -> connect h port = None ->
+    tls_intercept_enabled_ fl answers = false ->
+    Forall (declined fl) evs ->
+    let hf := run is_ip_literal connect handshake openssl_run client_flush client_handshake
+                  PS RS pipeline_step response_step fl host port answers fs0 p0 r0 evs in
+    tr (ps hf) = [EConnect h port; EClientQueue K200] /\ fs (ps hf) = fs0 /\
+    mode hf = Running /\ cl (ps hf) = ClPlain /\ up (ps hf) = UpPlain /\
+    plain_wire (cl_wire (ps hf)) /\ plain_wire (up_wire (ps hf)) /\
+    map snd (up_wire (ps hf)) ++ up_buf (ps hf) = client_chunks evs /\
+    map snd (cl_wire (ps hf)) ++ cl_buf (ps hf) = K200 :: upstream_chunks evs.
+Proof. exact optout_is_tunnel. Qed.
+Print Assumptions C11_optout_is_tunnel.
+
+(* ---------------------------------------------------------------- the certificate names the host *)
+(* Every openssl command issued and every client-side handshake performed is about the CONNECT host:
+   the self-signed template and the CA-signed leaf carry subjectAltName = IP:<addr> when the host is an
+   IP literal (brackets removed) and DNS:<host> otherwise; the cache files are <ca_cert_dir>/<host>.pub/
+   .csr/.pem; the leaf is signed with --ca-cert-file/--ca-key-file; the client handshake uses
+   --ca-signing-key-file and <ca_cert_dir>/<host>.pem.  (The subject DN is copied from the origin's
+   certificate: [exists peer_subject, subj = build_subject peer_subject].) *)
+Theorem C11_cert_names_host :
+  forall (is_ip_literal : bytes -> bool) (connect : bytes -> N -> option pyexn)
+         (handshake : wrap_call -> hs_result) (openssl_run : openssl_cmd -> run_result)
+         (client_flush : bytes -> flush_result) (client_handshake : bytes -> bytes -> option pyexn)
+         (PS RS : Type) (pipeline_step : PS -> bytes -> option (PS * list bytes))
+         (response_step : RS -> bytes -> option RS)
+         (fl : flags) (host : bytes) (port : N) (answers : list bool) (fs0 : list bytes)
+         (p0 : PS) (r0 : RS) (evs : list event),
+    let hf := run is_ip_literal connect handshake openssl_run client_flush client_handshake
+                  PS RS pipeline_step response_step fl host port answers fs0 p0 r0 evs in
+    forall e, In e (tr (ps hf)) ->
+      match e with
+      | EOpenssl c => exists h, text_ host = Ok h /\ good_cmd is_ip_literal fl h c
+      | EClientWrap k cert =>
+          exists h dir, text_ host = Ok h /\ ca_signing_key_file fl = Some k /\
+                        ca_cert_dir fl = Some dir /\ cert = generated_cert_file_path dir h
+      | _ => True
+      end.
+Proof. exact cert_names_host. Qed.
+Print Assumptions C11_cert_names_host.
+
+Theorem C11_san_entry : forall (is_ip_literal : bytes -> bool) h,
+  get_alt_name is_ip_literal h =
+  if is_ip_literal (strip_brackets h) then bs "IP:" ++ strip_brackets h else bs "DNS:" ++ h.
+Proof. exact get_alt_name_spec. Qed.
+Print Assumptions C11_san_entry.
+
+(* warm cache: if <ca_cert_dir>/<host>.pem exists no openssl command is run; and whenever the client side
+   ends up wrapped, the certificate presented is that file, it exists, and it was either there before or
+   written by a successful openssl command of this very connection (cold cache) *)
+Theorem C11_cert_cache :
+  forall (is_ip_literal : bytes -> bool) (connect : bytes -> N -> option pyexn)
+         (handshake : wrap_call -> hs_result) (openssl_run : openssl_cmd -> run_result)
+         (client_flush : bytes -> flush_result) (client_handshake : bytes -> bytes -> option pyexn)
+         (PS RS : Type) (pipeline_step : PS -> bytes -> option (PS * list bytes))
+         (response_step : RS -> bytes -> option RS)
+         (fl : flags) (host : bytes) (port : N) (answers : list bool) (fs0 : list bytes)
+         (p0 : PS) (r0 : RS) (evs : list event),
+    let hf := run is_ip_literal connect handshake openssl_run client_flush client_handshake
+                  PS RS pipeline_step response_step fl host port answers fs0 p0 r0 evs in
+    (forall h dir, text_ host = Ok h -> ca_cert_dir fl = Some dir ->
+                   mem_path (generated_cert_file_path dir h) fs0 = true ->
+                   Forall (fun e => is_openssl e = false) (tr (ps hf))) /\
+    (cl (ps hf) = ClTls ->
+     exists h dir k, text_ host = Ok h /\ ca_cert_dir fl = Some dir /\
+       let cert := generated_cert_file_path dir h in
+       In (EClientWrap k cert) (tr (ps hf)) /\ client_handshake k cert = None /\
+       mem_path cert (fs (ps hf)) = true /\
+       (mem_path cert fs0 = true \/
+        exists c, In (EOpenssl c) (tr (ps hf)) /\ bytes_eqb cert (cmd_out c) = true /\ openssl_run c = RTrue)).
+Proof. exact cert_cache. Qed.
+Print Assumptions C11_cert_cache.
+
+(* ---------------------------------------------------------------- the intercepted exchange (partial) *)
+(* Full statement would add: [outs] has the meaning of the client's requests (C02).  Proved: once the
+   client side is wrapped, what on_client_data's request pipeline produces from the decrypted chunks is
+   exactly what is queued for the origin and it leaves only inside the upstream TLS session; every origin
+   chunk is queued for the client unmodified, in order, and leaves only inside the client TLS session; the
+   only plaintext the client ever received is (a prefix of) the CONNECT reply - the client's byte stream
+   is K200 followed by the origin's bytes. *)
+Theorem C11_intercepted_exchange_partial :
+  forall (is_ip_literal : bytes -> bool) (connect : bytes -> N -> option pyexn)
+         (handshake : wrap_call -> hs_result) (openssl_run : openssl_cmd -> run_result)
+         (client_flush : bytes -> flush_result) (client_handshake : bytes -> bytes -> option pyexn)
+         (PS RS : Type) (pipeline_step : PS -> bytes -> option (PS * list bytes))
+         (response_step : RS -> bytes -> option RS)
+         (fl : flags) (host : bytes) (port : N) (answers : list bool) (fs0 : list bytes)
+         (p0 : PS) (r0 : RS) (evs : list event) (outs : list bytes),
+    let h1 := handle_connect is_ip_literal connect handshake openssl_run client_flush client_handshake
+                             PS RS fl host port answers (init_h fs0 p0 r0) in
+    let hf := run is_ip_literal connect handshake openssl_run client_flush client_handshake
+                  PS RS pipeline_step response_step fl host port answers fs0 p0 r0 evs in
+    cl (ps h1) = ClTls ->
+    Forall (engaged_at fl) evs ->
+    pipeline_outs pipeline_step p0 (client_chunks evs) = Some outs ->
+    responses_ok response_step r0 (upstream_chunks evs) = true ->
+    established hf /\
+    exists w0 wc,
+      cl_wire (ps hf) = w0 ++ wc /\ plain_wire w0 /\ tls_wire wc /\
+      tls_wire (up_wire (ps hf)) /\
+      map snd (up_wire (ps hf)) ++ up_buf (ps hf) = outs /\
+      concat (map snd w0) ++ concat (map snd wc ++ cl_buf (ps hf)) = K200 ++ concat (upstream_chunks evs).
+Proof. exact intercepted_exchange. Qed.
+Print Assumptions C11_intercepted_exchange_partial.
+
+(* ---------------------------------------------------------------- the finite outcome table *)
+(* every combination of the enumerated oracle outcomes x flag settings x plugin answers x cache states,
+   for a name, an IPv4 literal and a bracketed IPv6 literal, evaluated by the kernel: the boolean
+   renderings of the statements above hold on each of them (see Tls/InterceptSweep.v) *)
+Theorem C11_outcome_table_sweep :
+  forallb (fun host => forallb (sweep_check host) (sweep_table host)) sweep_hosts = true.
+Proof. exact sweep_ok. Qed.
+Print Assumptions C11_outcome_table_sweep.
+
+(* ---------------------------------------------------------------- non-vacuity *)
+(* the scripted openssl of the correspondence check satisfies openssl_spec, the premises of the theorems
+   are met by concrete scripts, and the interesting states are reached *)
+Theorem C11_sim_handshake_meets_spec : forall sc,
+  sc_transport sc = None ->
+  openssl_spec (sim_handshake sc)
+               (fun ca => match sc_chain sc with ChainTrustedBy t => obytes_eqb ca (Some t) | _ => false end)
+               (fun hn => mem_bytes hn (sc_names sc)).
+Proof. exact sim_handshake_meets_spec. Qed.
+Print Assumptions C11_sim_handshake_meets_spec.
+
+Example C11_nonvacuous_bad_upstream :
+  let sc := ex_script ChainUntrusted [bs "example.com"] in
+  let hf := sim_run sc ex_flags (bs "example.com") 443 [true] [] ex_events in
+  tls_intercept_enabled_ ex_flags [true] = true /\ insecure_tls_interception ex_flags = false /\
+  mode hf = Closed /\ up_wire (ps hf) = [] /\ cl_wire (ps hf) = [(false, K200)] /\ cl_buf (ps hf) = [].
+Proof. vm_compute. repeat split. Qed.
+
+Example C11_nonvacuous_wrong_name :
+  let sc := ex_script (ChainTrustedBy (bs "/x/trust.pem")) [bs "other.example"] in
+  let hf := sim_run sc ex_flags (bs "[::1]") 443 [] [] ex_events in
+  mode hf = Closed /\ up_wire (ps hf) = [] /\ cl_wire (ps hf) = [(false, K200)].
+Proof. vm_compute. repeat split. Qed.
+
+Example C11_nonvacuous_established :
+  let sc := ex_script (ChainTrustedBy (bs "/x/trust.pem")) [bs "::1"] in
+  let hf := sim_run sc ex_flags (bs "[::1]") 443 [true] [] ex_events in
+  established hf /\
+  In (EOpenssl (CmdSign (bs "/x/ca.pem") (bs "/x/ca.key") (bs "/certs/[::1].csr") (bs "/certs/[::1].pem") 730
+                        (LF :: bs "subjectAltName=IP:::1"))) (tr (ps hf)) /\
+  channel false (cl_wire (ps hf)) = K200 /\
+  channel true (cl_wire (ps hf)) = bs "response-1" ++ bs "response-2" /\
+  channel true (up_wire (ps hf)) = bs "request-1" ++ bs "request-2" /\ channel false (up_wire (ps hf)) = [].
+Proof. vm_compute. repeat split. right; right; right; right; right; left; reflexivity. Qed.
+
+Example C11_nonvacuous_tunnel :
+  let sc := ex_script ChainUntrusted [] in
+  let hf := sim_run sc ex_flags (bs "example.com") 443 [true; false] [] ex_events_optout in
+  tls_intercept_enabled_ ex_flags [true; false] = false /\ Forall (declined ex_flags) ex_events_optout /\
+  channel false (up_wire (ps hf)) = bs "request-1" ++ bs "request-2" /\
+  channel false (cl_wire (ps hf)) = K200 ++ bs "response-1" ++ bs "response-2" /\
+  tr (ps hf) = [EConnect (bs "example.com") 443; EClientQueue K200].
+Proof.
+  vm_compute. repeat split.
+  repeat constructor; intros a Ha; inversion Ha; reflexivity.
+Qed.
